@@ -2055,6 +2055,8 @@ package goatlang
 //@   allocates elems(instruction) elems(Value) elems(string) elems(int) lookup token
 //@   ensures len(result) == 0 || isfresh(arr(result))
 //@   ensures wfC(c) && keepsC(c) && tokensKept()
+//@   -- the "call" case always emits at least one instruction
+//@   trusted_ensures old(len(tokens) >= 1 && tokens[len(tokens)-1] != nil && tokens[len(tokens)-1].Symbol == "call") ==> len(result) >= 1
 //@ func (*compiler).optimize
 //@   property C06 C02 C07
 //@   requires c != nil
@@ -2168,12 +2170,25 @@ package goatlang
 //@   invariant wfC(c) && c.Locals == old(c.Locals) && c.Globals == old(c.Globals) && len(c.scope) == old(len(c.scope)) + 2 && len(c.Locals.data) >= old(len(c.Locals.data)) && len(c.Returns) == old(len(c.Returns)) && c.Optimize == old(c.Optimize) && tokensKept() && (c.Optimize ==> optimized(defBlock) && optimized(csStmt) && optimized(csBlock))
 //@   invariant forall j int :: 0 <= j && j < old(len(c.scope)) ==> c.scope[j] == old(c.scope[j])
 
+//@ -- a returned call is asked for as many results as the function declares; a returned builtin or
+//@ -- conversion (also a "call" node, but ending in APPEND, LEN, CONVERT, ...) keeps its operands:
+//@ -- for APPEND operand B is the spread flag, not a result count
+//@ func setCallReturns
+//@   property C09 C11 C19 C07
+//@   requires len(ins) >= 1
+//@   modifies elems(ins)
+//@   nopanic
+//@   ensures#call old(ins[len(ins)-1].Code == codeCall || ins[len(ins)-1].Code == codeCallVariadic) ==> ins[len(ins)-1].B == reg(n) && ins[len(ins)-1].Code == old(ins[len(ins)-1].Code) && ins[len(ins)-1].A == old(ins[len(ins)-1].A) && ins[len(ins)-1].C == old(ins[len(ins)-1].C) && ins[len(ins)-1].Pos == old(ins[len(ins)-1].Pos)
+//@   ensures#other !old(ins[len(ins)-1].Code == codeCall || ins[len(ins)-1].Code == codeCallVariadic) ==> ins[len(ins)-1] == old(ins[len(ins)-1])
+//@   ensures#rest forall j int :: 0 <= j && j < len(ins) - 1 ==> ins[j] == old(ins[j])
 //@ func (*compiler).compile case "return"
-//@   property C09 C07 C06 C19
+//@   property C09 C07 C06 C19 C11
 //@   axioms TOKARR
 //@   requires wfC(c) && tok != nil && len(c.Returns) >= 1 && tokArr(arr(tok.Tokens)) && (forall j int :: 0 <= j && j < len(tok.Tokens) ==> tok.Tokens[j] != nil)
 //@   ensures#wf wfC(c) && keepsC(c)
-//@   ensures#tailcall old(len(tok.Tokens) == 1 && tok.Tokens[0].Symbol == "call") ==> len(res) >= 2 && res[len(res)-1].Code == codeReturn && res[len(res)-2].B == res[len(res)-1].A && int(res[len(res)-1].A) == c.Returns[len(c.Returns)-1]
+//@   ensures#tailcall old(len(tok.Tokens) == 1 && tok.Tokens[0].Symbol == "call") ==> len(res) >= 2 && res[len(res)-1].Code == codeReturn && int(res[len(res)-1].A) == c.Returns[len(c.Returns)-1] && ((res[len(res)-2].Code == codeCall || res[len(res)-2].Code == codeCallVariadic) ==> res[len(res)-2].B == res[len(res)-1].A)
+//@   callsite#declared setCallReturns: arg_n == c.Returns[len(c.Returns)-1]
+//@   ensures#viahelper old(len(tok.Tokens) == 1 && tok.Tokens[0].Symbol == "call") ==> calls("setCallReturns") == 1
 //@   ensures#plain !old(len(tok.Tokens) == 1 && tok.Tokens[0].Symbol == "call") ==> len(res) >= 1 && res[len(res)-1].Code == codeReturn && int(res[len(res)-1].A) == old(len(tok.Tokens))
 
 // ---------------------------------------------------------------------------------------------
